@@ -38,11 +38,22 @@ def run(ctx):
         for cost in (gen_prog.i2a(160), b"\x00" + gen_prog.i2a(160), gen_prog.i2a(1000)):
             pool.append((gen.tt(gen_prog.guard(body, b"", cost, ext)), gen.tt(b""), "directed-noncanonical-guard"))
     lines = []
+    jobs = []
     for p, e, tag in pool:
+        bit = int(tag.split("=")[1].split()[0]) if tag.startswith("flagsens[f=") else 0
+        if bit in gen_prog.RESTRICTION_BITS:
+            # a program whose outcome hinges on one restriction bit: F without it, F u R with it, under
+            # both cost models (the bit often only matters under one of them)
+            base = gen_prog.random_flags(r, 0.15) & ~bit & ~FLAG["NEW_COST_MODEL"]
+            for ncm in (0, FLAG["NEW_COST_MODEL"]):
+                jobs.append((p, e, tag, base | ncm, bit | sum(b for b in gen_prog.RESTRICTION_BITS if r.random() < 0.1)))
+            continue
         f = runlib.pick_flags(r, tag, 0.15)
         add = 0
         while add == 0:
             add = gen_prog.MEMPOOL_MODE if r.random() < 0.25 else sum(b for b in gen_prog.RESTRICTION_BITS if r.random() < 0.3)
+        jobs.append((p, e, tag, f, add))
+    for p, e, tag, f, add in jobs:
         if tag == "directed-noncanonical-guard":
             f &= ~(FLAG["CANONICAL_INTS"] | FLAG["NO_UNKNOWN_OPS"])
             add = FLAG["CANONICAL_INTS"] | (FLAG["NO_UNKNOWN_OPS"] if r.random() < 0.4 else 0)
